@@ -44,6 +44,9 @@ def run(prog, rep, tier):
     check_length_arith(prog, r4)
     r5 = rep.rule("R04.5", "encode_to does not report success while entries remain")
     check_no_silent_drop(prog, r5)
+    r7 = rep.rule("R04.7", "attribute length form and AS4 reconciliation conditions")
+    check_attr_length_form(prog, r7)
+    check_as4_reconcile(prog, r7)
     r6 = rep.rule("R04.6", "encoder and decoder dispatch on the same NLRI types")
     check_tables(prog, r6, table)
     check_flowspec_len(prog, r6)
@@ -559,6 +562,62 @@ def check_no_silent_drop(prog, r):
 
 
 # ---------------------------------------------------------------------------------------------- R04.6
+def check_attr_length_form(prog, r):
+    """Attribute::encode chooses between the one-octet and the two-octet (Extended Length) form by the payload length:
+    everything above 255 bytes needs the extended form, and the one-octet form must not be used above 255."""
+    k = prog.one(r"rustybgp_packet::bgp::Attribute::encode")
+    fv = view(prog, k)
+    r.analysed(fv.name)
+    thr = None
+    site = None
+    for bb, br in branches(fv).items():
+        e = br.expr
+        if e[0] == "bin" and e[1] in ("Gt", "Ge", "Lt", "Le") and any(c.endswith("::len") for c in expr_calls(e)) and "bin" in expr_vars(e):
+            lenleft = any(c.endswith("::len") for c in expr_calls(e[2]))
+            cst = e[3] if lenleft else e[2]
+            if cst[0] != "const" or not isinstance(cst[1], int):
+                continue
+            op = e[1] if lenleft else {"Gt": "Lt", "Ge": "Le", "Lt": "Gt", "Le": "Ge"}[e[1]]
+            # largest length that still takes the one-octet form
+            thr = {"Gt": cst[1], "Ge": cst[1] - 1, "Le": cst[1], "Lt": cst[1] - 1}[op]
+            site = bb
+    if thr is None:
+        r.unanalysable("Attribute::encode: the length test that selects the Extended Length form was not recognised", fv.loc())
+    elif thr == 255:
+        r.ok("Attribute::encode: payloads up to 255 bytes use the one-octet length, longer ones the Extended Length form")
+    else:
+        r.fail(fv.name, "extended-length-threshold", "the one-octet attribute length form is used for payloads up to %d bytes (a one-octet length holds at most 255; above that the value written wraps "
+               "and disagrees with the bytes that follow)" % thr if thr > 255 else "the Extended Length form starts at %d bytes although a one-octet length holds 255: the canonical form is not produced" % (thr + 1), fv.loc(site))
+
+
+def check_as4_reconcile(prog, r):
+    """RFC 6793 section 4.2.3 on receipt from an OLD speaker: AS4_PATH (and AS4_AGGREGATOR) are ignored only when *both*
+    AGGREGATOR and AS4_AGGREGATOR are present and AGGREGATOR's AS is not AS_TRANS; AS4_AGGREGATOR replaces AGGREGATOR only
+    when AGGREGATOR carries AS_TRANS."""
+    ks = prog.find(r"rustybgp_packet::bgp::PeerCodec::reconcile_as4")
+    if len(ks) != 1:
+        r.unanalysable("PeerCodec::reconcile_as4 anchor matched %d" % len(ks))
+        return
+    fv = view(prog, ks[0])
+    r.analysed(fv.name)
+    brs = branches(fv)
+    ls = [l for l, nm in fv.local_name.items() if nm == "ignore_as4_path"]
+    sets = [bi for l in ls for bi, si, s in fv.defs().get(l, []) if bi in fv.live and si != "t" and s["rv"]["r"] == "use" and (s["rv"]["o"].get("k") or {}).get("v") == 1]
+    if not sets:
+        r.unanalysable("reconcile_as4: no `ignore_as4_path = true` assignment", fv.loc())
+        return
+    for bi in sets:
+        gs = flat_guards(fv, bi, brs)
+        have_as4agg = any(g[0] == "discr" and "as4_aggregator" in expr_vars(g) and l == {"Some"} for g, l, h in gs)
+        have_agg = any(g[0] == "discr" and l == {"Some"} and any(c.endswith("Iterator::position") for c in expr_calls(g)) for g, l, h in gs)
+        not_trans = any(g[0] == "bin" and g[1] in ("Eq", "Ne") and any(c.endswith("aggregator_asn") for c in expr_calls(g)) and ((g[1] == "Eq") == (l == {"false"})) for g, l, h in gs)
+        miss = [n for n, ok in (("AS4_AGGREGATOR present", have_as4agg), ("AGGREGATOR present", have_agg), ("AGGREGATOR's AS is not AS_TRANS", not_trans)) if not ok]
+        if miss:
+            r.fail(fv.name, "as4-ignore-condition", "AS4_PATH is ignored without the condition(s): %s — a wide AS_PATH from an OLD speaker is then left with AS_TRANS placeholders" % "; ".join(miss), fv.loc(bi))
+        else:
+            r.ok("reconcile_as4: AS4_PATH ignored only if AGGREGATOR and AS4_AGGREGATOR are present and AGGREGATOR's AS is not AS_TRANS")
+
+
 def check_flowspec_len(prog, r):
     """FlowSpec NLRI length (RFC 8955 section 4.1): one octet for lengths below 0xF0, otherwise two octets whose first has the
     high nibble 0xF.  The reader decides by `first < 0xF0`; the writer's one-octet form must therefore never produce a
